@@ -492,6 +492,8 @@ func callSSA(i *interpreter, caller *frame, callpos token.Pos, fn *ssa.Function,
 		fn:     fn,
 	}
 	FuncHits[fn]++
+	csn := len(callStack)
+	callStack = append(callStack, fn)
 	if fn.Parent() == nil {
 		if fn.Pkg != nil && fn.Name() == "init" && fn == fn.Pkg.Func("init") {
 			if !InitAllowed(fn.Pkg.Pkg.Path()) || i.initDone[fn.Pkg] {
@@ -541,6 +543,7 @@ func callSSA(i *interpreter, caller *frame, callpos token.Pos, fn *ssa.Function,
 	for fr.block != nil {
 		runFrame(fr)
 	}
+	callStack = callStack[:csn]
 	// Destroy the locals to avoid accidental use after return.
 	for i := range fn.Locals {
 		fr.locals[i] = bad{}
